@@ -186,6 +186,7 @@ func (m *Merger) clipVertical() {
 func (m *Merger) clipTrapezoids() {
 	for base := m.trapList; base != nil; base = base.next {
 		if base.Top-base.Bottom < m.bottomPadding-2 {
+			m.tail = base
 			continue
 		}
 
